@@ -1,16 +1,15 @@
 CONSTANTS
   MaxCap = 3
-  MaxGuards = 6
+  MaxGuards = 5
   MaxClones = 2
-  MaxDepth = 9
+  MaxDepth = 7
   NWakers = 2
   WakeOffset = 0
   KeepFirstWaker = FALSE
   AvailLe = FALSE
-  WakeBeforeDecrement = FALSE
+  WakeBeforeDecrement = TRUE
 SPECIFICATION Spec
 VIEW View
-INVARIANTS C17_TotalIsGuards C17_WakeOnRelease LogInit
+INVARIANTS C17_TotalIsGuards C17_WakeOnRelease
 PROPERTIES C17_Steps
-ACTION_CONSTRAINT LogEdge
 CHECK_DEADLOCK FALSE
